@@ -31,13 +31,44 @@ PANIC_CALLS = [
 PANIC_RX = [(re.compile(p), k) for p, k in PANIC_CALLS]
 
 
+_WRAP = re.compile(r"\b(clone|to_string|to_owned|deref|deref_mut|as_ref|as_str|as_mut|borrow|as_slice|as_bytes)\(([^()]*)\)")
+
+
+def norm_fingerprint(fp):
+    """Fingerprint with reference conversions / copies of an operand peeled off (`to_string(deref(x))`, `clone(x)` -> `x`):
+    a reviewed site stays the same site when the value is copied in a different but equivalent way."""
+    prev = None
+    while prev != fp:
+        prev = fp
+        fp = _WRAP.sub(lambda m: m.group(2), fp)
+    return fp
+
+
+class AllowTable(dict):
+    """fingerprint -> entry; a lookup that misses falls back to the normalised fingerprint."""
+
+    def __init__(self, entries):
+        super().__init__(entries)
+        self._norm = {}
+        for k, v in entries.items():
+            self._norm.setdefault(norm_fingerprint(k), v)
+
+    def __contains__(self, k):
+        return dict.__contains__(self, k) or norm_fingerprint(k) in self._norm
+
+    def __getitem__(self, k):
+        if dict.__contains__(self, k):
+            return dict.__getitem__(self, k)
+        return self._norm[norm_fingerprint(k)]
+
+
 def load_allow():
     try:
         with open(ALLOW) as fh:
             d = json.load(fh)
     except FileNotFoundError:
-        return {}
-    return {e["fingerprint"]: e for e in d.get("sites", [])}
+        return AllowTable({})
+    return AllowTable({e["fingerprint"]: e for e in d.get("sites", [])})
 
 
 def short_desc(d, depth=0, names=True):
